@@ -12,6 +12,8 @@ first_missed = {
  'C13-a': 'CliffordTableau._measure was not built in the first version; obligation tableau.measure.* added afterwards',
  'C13-b': 'CH form was not built in the first version; obligations chform.reindex.* added afterwards',
  'C17-b': 'result histograms had 2 entries; a 3-4 entry joint-multiset obligation was added afterwards',
+ 'C02-c': 'Pauli measurements were only applied to a bare StateVectorSimulationState; obligation pauli_measurement.simulator (Simulator with split_untangled_states on/off, final state) added afterwards',
+ 'C02-d': 'confusion maps were single-index only; a joint (two-index, symbolic 4x4) confusion matrix was added to act_on_measure afterwards',
  'C19-b': 'the concrete KAK fall-back menu only had gates with interaction (x,0,0); matrix-only gates with generic coefficients added afterwards',
 }
 still = {
